@@ -63,7 +63,9 @@ def search(tier, seed):
                 total += 1
                 positions += 1
                 v = got.split(" ", 1)[0]
-                if v == "INC" or v == "PANIC" or (v == "OK" and int(got.split(" ")[1]) != len(hc) // 2):
+                # the same position took the one-byte literal {1}CRLF A whole: it is a literal-capable string position, and
+                # what the literal holds must not matter -- an error verdict means the content was read as syntax as well
+                if v in ("INC", "PANIC", "ERR", "FAIL") or (v == "OK" and int(got.split(" ")[1]) != len(hc) // 2):
                     return total, "the content of a literal was read as protocol syntax: the response %s with the literal content %r in place of \"A\" is answered %s (it is complete, %d bytes):\ninput %s" % (
                         C.show_input(h0), content, got[:80], len(hc) // 2, C.show_input(hc, 400)), samples, positions
             samples.append("grammar sentences: %d literal positions x 6 hostile contents" % (len(cases) // 6))
